@@ -7,6 +7,7 @@ import (
 	"path/filepath"
 	"sort"
 	"strconv"
+	"strings"
 	"testing"
 	"testing/cryptotest"
 	"testing/synctest"
@@ -273,6 +274,18 @@ func Minimise(t *testing.T, world WorldFunc, o *Outcome, v Violation, budget int
 			return false
 		})
 		rf.MinLen = len(ids)
+		// does the violation need an interleaving at all? Try the same steps with every scheduled group run
+		// sequentially (first enabled event each time)
+		if !bestSpec.SequentialGroups {
+			s := bestSpec
+			s.SequentialGroups = true
+			if r, ok := try(s); ok {
+				best, bestSpec = r, s
+				rf.Note = "no particular interleaving is needed: the violation also shows when the requests of every scheduled group run one after the other"
+			} else if strings.Contains(strings.Join(best.Trace, " "), "schedule") {
+				rf.Note = "the interleaving matters: with the requests of the scheduled group run one after the other the violation does not show"
+			}
+		}
 	case len(o.Trace) > 0:
 		script := append([]string(nil), o.Trace...)
 		rf.OrigLen = len(script)
